@@ -991,6 +991,16 @@ def check_fresh_per_iteration(ctx, funcs: typing.Iterable[FuncInfo], rule="FRESH
         n += 1
         ctx.unit(f.module)
         inside = any(any(x is st for x in ast.walk(lp)) for st in ctor[v])
+        # a constructor inside the loop that runs only while the variable is still None (`if v is None: v = Ctor()`), with the
+        # None assigned outside the loop, runs in the first iteration only: the object is shared by all iterations
+        if inside:
+          from .match import enclosing_conditions, is_none_test
+          lazy = [st for st in ctor[v] if any(x is st for x in ast.walk(lp))
+                  and any(pol and is_none_test(t, lambda e: isinstance(e, ast.Name) and e.id == v) is True for t, pol in enclosing_conditions(st, lp))]
+          reset_inside = any(isinstance(st, ast.Assign) and any(isinstance(t, ast.Name) and t.id == v for t in st.targets) and isinstance(st.value, ast.Constant) and st.value.value is None
+                             for st in ast.walk(lp))
+          if lazy and len(lazy) == len([st for st in ctor[v] if any(x is st for x in ast.walk(lp))]) and not reset_inside:
+            inside = False
         # pushing INTO a container created outside is fine; the pushed object itself must be fresh
         ctx.check(inside, rule, f"{f.qualname}|{short(c, 50)}", ctx.where(f.module, c), f"`{v}` is constructed inside the loop",
                   f"`{short(c, 60)}` runs once per iteration of `{short(lp, 40)}` but `{v}` is constructed once, outside the loop: the second iteration pushes an element that already has a parent (RuntimeError)")
@@ -1088,4 +1098,51 @@ def check_interval_resolution(ctx, producer: FuncInfo, refuser: FuncInfo, rule="
               f"reached only when {e} is None or the rounded {e} is after the rounded {b}",
               f"`{short(c, 60)}` creates a cue for an interval that can be empty at the resolution of the printed time codes "
               f"(e.g. {b}=1 s, {e}=1.0004 s): {refuser.short} then raises ValueError and the whole document cannot be written")
+  return n
+
+
+# ---------------------------------------------------------------------------------------
+# PURE-query: queries of value classes do not write the object
+# ---------------------------------------------------------------------------------------
+
+_QUERY_NAMES = ("to_", "get_", "is_", "has_", "iter_")
+_QUERY_DUNDERS = {"__str__", "__repr__", "__eq__", "__ne__", "__hash__", "__len__", "__lt__", "__le__", "__gt__", "__ge__", "__iter__", "__bool__", "__contains__"}
+
+
+def check_pure_queries(ctx, classes, rule="PURE-query", exempt: typing.Optional[typing.Dict[str, str]] = None, summary=False):
+  """A method whose name says it is a query (to_*, get_*, is_*, has_*, iter_*, comparison and
+  printing dunders) does not assign an attribute of self: a query that caches or updates state makes
+  the answer depend on which queries and updates came before (a stale memo after a later update is
+  the typical defect).  exempt: {qualified method name: reason}."""
+  exempt = exempt or {}
+  n = 0
+  if not hasattr(ctx, "_pure_query_done"):
+    try:
+      ctx._pure_query_done = set()
+    except AttributeError:
+      pass
+  done = getattr(ctx, "_pure_query_done", set())
+  for c in classes:
+    if c.qualname in done:
+      continue
+    done.add(c.qualname)
+    ctx.unit(c.module)
+    for name, m in sorted(c.methods.items()):
+      if not (name.startswith(_QUERY_NAMES) or name in _QUERY_DUNDERS):
+        continue
+      if any(unparse(d).split(".")[-1] in ("setter",) for d in m.node.decorator_list):
+        continue
+      n += 1
+      stores = [t for t in own_nodes(m.node) if isinstance(t, ast.Attribute) and isinstance(t.ctx, (ast.Store, ast.Del)) and isinstance(t.value, ast.Name) and t.value.id in ("self", "cls")]
+      key = f"{m.qualname}|a query leaves the object as it is"
+      if stores and m.qualname in exempt:
+        ctx.ok(rule, key + "|exempt", ctx.where(m.module, stores[0]), "reasoned exception: " + exempt[m.qualname])
+        continue
+      if summary and not stores:
+        continue
+      ctx.check(not stores, rule, key, ctx.where(m.module, stores[0] if stores else m.node), "no attribute of self is assigned",
+                f"{m.short} is a query but assigns `{unparse(stores[0]) if stores else ''}`: state written by a query (a memo, a cursor) goes stale when the object is updated "
+                "afterwards, so the answer depends on the history of calls")
+  if summary:
+    ctx.ok(rule, f"{len(list(classes))} classes|queries leave the object as it is", "src/main/python/ttconv", f"{n} query methods scanned")
   return n
